@@ -212,14 +212,52 @@ func validateValue(raw []byte) error {
 }
 
 func newLeaf(raw []byte) *Skeleton {
+	if s := valueSkeleton(raw); s != nil {
+		return s
+	}
 	return &Skeleton{Kind: KindLeaf, RawBytes: raw, LeafCode: raw[0]}
 }
 
 func replaceWithLeaf(target *Skeleton, raw []byte) {
+	if s := valueSkeleton(raw); s != nil {
+		*target = *s
+		return
+	}
 	target.Kind = KindLeaf
 	target.RawBytes = raw
 	target.LeafCode = raw[0]
 	target.MapFields = nil
 	target.ArrayItems = nil
 	// LeafStart/LeafEnd become irrelevant once RawBytes is set.
+}
+
+// valueSkeleton returns the structural skeleton of a map or array value, with every leaf carrying
+// its own bytes, so that later ops of the same patch can address fields and elements inside a
+// value spliced in by an earlier op. It returns nil for leaf values and for containers the
+// skeleton parser does not support (non-string keys): those stay opaque.
+func valueSkeleton(raw []byte) *Skeleton {
+	if !isMapCode(raw[0]) && !isArrayCode(raw[0]) {
+		return nil
+	}
+	skel, err := Parse(raw)
+	if err != nil {
+		return nil
+	}
+	ownLeafBytes(skel, raw)
+	return skel
+}
+
+func ownLeafBytes(s *Skeleton, blob []byte) {
+	switch s.Kind {
+	case KindLeaf:
+		s.RawBytes = blob[s.LeafStart:s.LeafEnd]
+	case KindMap:
+		for _, f := range s.MapFields {
+			ownLeafBytes(f.Value, blob)
+		}
+	case KindArray:
+		for _, item := range s.ArrayItems {
+			ownLeafBytes(item, blob)
+		}
+	}
 }
